@@ -182,11 +182,13 @@ theorem clearPreRegistration_spec (l : FLink F) (now : Nat) :
 
 /-- Effect of one pass (or one whole event) on one link's batch queue.  `app` = the items appended at
 the END of the queue, `b` = the bytes this pass put on the link's socket, `cause` = what must hold if
-queued items are discarded.  Exactly three shapes: *held* (queue grows by `app`, nothing sent),
+queued items are discarded.  Exactly three shapes: *held* (queue grows by `app`, nothing sent; if something was appended the queue stays below the
+link's regime threshold, hence below 32),
 *sent* (the whole queue incl. `app` goes on the wire, in order, byte for byte), *discarded*. -/
 def LinkFx (cause : Prop) (app : List QItem) (l l' : FLink F) (b : List Bytes) : Prop :=
   l'.core.connId = l.core.connId ∧
-  ((l'.queue = l.queue ++ app ∧ b = [] ∧ (app = [] ∨ l'.queue.length < 32)) ∨
+  ((l'.queue = l.queue ++ app ∧ b = [] ∧
+      (app = [] ∨ (l'.queue.length < l'.regime.batchSize ∧ l'.queue.length < 32))) ∨
    (l'.queue = [] ∧ b = bytesOf (l.queue ++ app)) ∨
    (l'.queue = [] ∧ b = [] ∧ cause))
 
@@ -232,7 +234,7 @@ theorem queueThenFlush_fx (l : FLink F) (x : QItem) (now : Nat) (fn fn0 : List N
     have hlt : ¬ (l.queue.length + 1 ≥ l.regime.batchSize) := by simpa using hf
     have := batchSize_le l.regime
     refine ⟨⟨by rw [hq3], Or.inl ⟨hq1, rfl, Or.inr ?_⟩⟩, hq4⟩
-    rw [hq1]; simp; omega
+    rw [hq1, hq5]; simp; omega
   · intro _
     have hs := sendConnectionBatch_spec (l.queueDataPacket x.1 x.2.1 now).1 now fn
     dsimp only at hs
